@@ -51,6 +51,10 @@ pub struct BRule {
     /// exist, so executing it returns an error midway
     #[serde(default)]
     pub fails: bool,
+    /// assignments that READ a fact: `target = source` (the value of another field at that moment).
+    /// Generated for C11 only, whose oracles compare engines with each other and need no reference semantics
+    #[serde(default)]
+    pub copies: Vec<(u8, u8)>,
 }
 
 #[derive(Clone, Debug, Serialize, Deserialize, PartialEq)]
@@ -119,6 +123,9 @@ pub enum BwdTrace {
         memo: bool,
         attach_rete: bool,
         ops: Vec<BOp>,
+        /// the five fields live on three objects (F, G, H) instead of one
+        #[serde(default)]
+        objects: bool,
     },
     Frames {
         hash_seed: u64,
@@ -130,8 +137,19 @@ pub struct BwdWorld;
 
 type Snapshot = BTreeMap<String, Value>;
 
+thread_local! {
+    /// objects mode of the run executing on this thread: the five fields on one object `F` (false), or
+    /// spread over three objects `F`, `G`, `H` (true) — candidate lookup goes by object
+    static OBJECTS: std::cell::Cell<bool> = const { std::cell::Cell::new(false) };
+}
+
 fn fkey(f: u8) -> String {
-    format!("F.f{}", f as usize % NF)
+    let f = f as usize % NF;
+    if OBJECTS.with(|o| o.get()) {
+        format!("{}.f{f}", ["F", "F", "G", "G", "H"][f])
+    } else {
+        format!("F.f{f}")
+    }
 }
 
 fn lit_value(ty: Ty, lit: u8) -> Value {
@@ -240,6 +258,9 @@ fn build_kb(types: &[Ty], rules: &[BRule]) -> KnowledgeBase {
             .iter()
             .map(|(f, l)| ActionType::Set { field: fkey(*f), value: lit_value(types[*f as usize % NF], *l) })
             .collect();
+        for (t, src) in &r.copies {
+            actions.push(ActionType::Set { field: fkey(*t), value: Value::Expression(fkey(*src)) });
+        }
         if r.fails {
             actions.push(ActionType::MethodCall { object: "Ghost".to_string(), method: "poke".to_string(), args: vec![] });
         }
@@ -671,6 +692,9 @@ fn run_search(
     if rules.iter().any(|r| r.fails) {
         obs.count("fault.rule_action_errors_midway");
     }
+    if rules.iter().any(|r| !r.copies.is_empty()) {
+        obs.count("probe.rule_action_that_reads_a_fact");
+    }
     let mut asked: BTreeSet<String> = BTreeSet::new();
     for (step, op) in ops.iter().enumerate() {
         let site = site_of(strategy);
@@ -844,7 +868,9 @@ fn run_search(
                 let mut verdicts: Vec<(u64, bool)> = Vec::new();
                 for hs in alt_hash_seeds {
                     let (types2, rules2, enabled2, before2, gt2, cfg2) = (types.to_vec(), rules.to_vec(), enabled.clone(), before.clone(), gt.clone(), mkcfg(max_depth, strategy, max_solutions, memo));
+                    let objects2 = OBJECTS.with(|o| o.get());
                     let r = hashseed::on_seeded_thread(*hs, move || {
+                        OBJECTS.with(|o| o.set(objects2));
                         let mut e3 = BackwardEngine::with_config(build_kb_with(&types2, &rules2, &enabled2), cfg2);
                         let mut f3 = facts_from(&before2);
                         let rete3: Option<Arc<Mutex<IncrementalEngine>>> = if attach_rete { Some(Arc::new(Mutex::new(IncrementalEngine::new()))) } else { None };
@@ -1095,7 +1121,15 @@ fn gen_search(rng: &mut Rng, hash_seed: u64, c11_ops: bool, with_negation: bool)
             })
             .collect();
         let fails = rng.chance(1, 10);
-        rules.push(BRule { cond, sets, fails });
+        // C11 only: one rule in six also copies a fact into a field (an action that reads the store)
+        let copies = if c11_ops && rng.chance(1, 6) {
+            let t = rng.below(nassign as u64) as u8;
+            let same: Vec<u8> = (0..NF as u8).filter(|x| *x != t && types[*x as usize] == types[t as usize]).collect();
+            if same.is_empty() { vec![] } else { vec![(t, *rng.pick(&same))] }
+        } else {
+            vec![]
+        };
+        rules.push(BRule { cond, sets, fails, copies });
     }
     // state-machine programs (a quarter of the non-Horn ones): field 0 is a state that rules move from
     // value to value (`F.f0 == a -> F.f0 = b`), field 1 an output concluded from a state
@@ -1109,11 +1143,11 @@ fn gen_search(rng: &mut Rng, hash_seed: u64, c11_ops: bool, with_negation: bool)
         for _ in 0..2 + rng.usize(3) {
             let a = rng.below(nvals as u64) as u8;
             let b = (a + 1 + rng.below(nvals as u64 - 1) as u8) % nvals;
-            m.push(BRule { cond: BCond::Atom(BAtom { field: 0, op: 0, lit: a }), sets: vec![(0, b)], fails: false });
+            m.push(BRule { cond: BCond::Atom(BAtom { field: 0, op: 0, lit: a }), sets: vec![(0, b)], fails: false, copies: vec![] });
         }
         let v = rng.below(3) as u8;
         for _ in 0..1 + rng.usize(2) {
-            m.push(BRule { cond: BCond::Atom(BAtom { field: 0, op: 0, lit: rng.below(nvals as u64) as u8 }), sets: vec![(1, v)], fails: false });
+            m.push(BRule { cond: BCond::Atom(BAtom { field: 0, op: 0, lit: rng.below(nvals as u64) as u8 }), sets: vec![(1, v)], fails: false, copies: vec![] });
         }
         m.extend(rules.iter().take(rng.usize(3)).cloned());
         rng.shuffle(&mut m);
@@ -1138,6 +1172,40 @@ fn gen_search(rng: &mut Rng, hash_seed: u64, c11_ops: bool, with_negation: bool)
         None => goals,
     };
     let attach_rete = rng.chance(1, 5);
+    // what a caller's write is likely to be about: a premise some rule is waiting for (`field == lit` in a
+    // condition), or a fact that only an action reads (the source of a copy, set to what a goal asks of the target)
+    let mut premises: Vec<(u8, u8)> = Vec::new();
+    for r in &rules {
+        let mut ats = Vec::new();
+        atoms_of(&r.cond, &mut ats);
+        for a in ats {
+            if a.op % if types[a.field as usize % NF] == Ty::Int { 6 } else { 2 } == 0 {
+                premises.push((a.field % NF as u8, a.lit));
+            }
+        }
+    }
+    let mut sources: Vec<(u8, u8)> = Vec::new();
+    for r in &rules {
+        for (t, src) in &r.copies {
+            for g in goals.iter().filter(|g| g.field % NF as u8 == *t % NF as u8) {
+                sources.push((*src, g.lit));
+            }
+            sources.push((*src, rng.below(3) as u8));
+        }
+    }
+    let gen_set = |rng: &mut Rng, focused: bool| -> BOp {
+        match rng.weighted(&[if focused { 10 } else { 40 }, if premises.is_empty() { 0 } else { 40 }, if sources.is_empty() { 0 } else if focused { 50 } else { 20 }]) {
+            1 => {
+                let (f, l) = *rng.pick(&premises);
+                BOp::SetFact(f, l)
+            }
+            2 => {
+                let (f, l) = *rng.pick(&sources);
+                BOp::SetFact(f, l)
+            }
+            _ => BOp::SetFact(rng.below(NF as u64) as u8, rng.below(3) as u8),
+        }
+    };
     let nops = 1 + rng.usize(6);
     let mut ops = Vec::new();
     for _ in 0..nops {
@@ -1150,7 +1218,7 @@ fn gen_search(rng: &mut Rng, hash_seed: u64, c11_ops: bool, with_negation: bool)
                     BOp::Query(rng.below(3) as u8)
                 }
             }
-            1 => BOp::SetFact(rng.below(NF as u64) as u8, rng.below(3) as u8),
+            1 => gen_set(rng, false),
             2 => BOp::RemoveAux,
             3 => BOp::AssertAux(rng.below(3) as u8),
             4 => BOp::EngineInsert(rng.below(3) as u8),
@@ -1161,6 +1229,13 @@ fn gen_search(rng: &mut Rng, hash_seed: u64, c11_ops: bool, with_negation: bool)
             10 => BOp::ToggleRule(rng.below(16) as u8),
             _ => BOp::SetConfig { strategy: *rng.pick(&[0u8, 0, 1, 2]), max_solutions: *rng.pick(&[1usize, 1, 3]), memo: rng.chance(2, 3), max_depth: if rng.chance(1, 3) { Some(*rng.pick(&[0usize, 1, 2, 3, 4])) } else { None } },
         });
+    }
+    // every other history ends with the pattern 'ask, the caller writes a fact, ask the same again'
+    if rng.chance(1, 2) {
+        let g = rng.below(3) as u8;
+        ops.push(BOp::Query(g));
+        ops.push(gen_set(rng, true));
+        ops.push(BOp::Query(g));
     }
     ops.push(BOp::Query(rng.below(3) as u8));
     BwdTrace::Search {
@@ -1176,6 +1251,7 @@ fn gen_search(rng: &mut Rng, hash_seed: u64, c11_ops: bool, with_negation: bool)
         memo: rng.chance(1, 2),
         attach_rete,
         ops,
+        objects: rng.chance(1, 3),
     }
 }
 
@@ -1259,9 +1335,13 @@ impl World for BwdWorld {
                     Ok(())
                 }
             }
-            BwdTrace::Search { alt_hash_seeds, types, init, rules, goals, max_depth, strategy, max_solutions, memo, attach_rete, ops, .. } => {
+            BwdTrace::Search { alt_hash_seeds, types, init, rules, goals, max_depth, strategy, max_solutions, memo, attach_rete, ops, objects, .. } => {
                 if types.len() != NF || init.len() != NF || rules.is_empty() {
                     return Ok(());
+                }
+                OBJECTS.with(|o| o.set(*objects));
+                if *objects {
+                    obs.count("probe.fields_on_three_objects");
                 }
                 run_search(prop, types, init, rules, goals, *max_depth, *strategy, (*max_solutions).max(1), *memo, *attach_rete, ops, alt_hash_seeds, obs)
             }
@@ -1279,7 +1359,7 @@ impl World for BwdWorld {
                     out.push(BwdTrace::Frames { hash_seed: 1, ops: ops.clone() });
                 }
             }
-            BwdTrace::Search { hash_seed, alt_hash_seeds, types, init, rules, goals, max_depth, strategy, max_solutions, memo, attach_rete, ops } => {
+            BwdTrace::Search { hash_seed, alt_hash_seeds, types, init, rules, goals, max_depth, strategy, max_solutions, memo, attach_rete, ops, objects } => {
                 let mk = |alt: &Vec<u64>, rules: &Vec<BRule>, goals: &Vec<BAtom>, ops: &Vec<BOp>, max_depth: usize, max_solutions: usize, memo: bool, attach: bool, init: &Vec<u8>, hs: u64| BwdTrace::Search {
                     hash_seed: hs,
                     alt_hash_seeds: alt.clone(),
@@ -1293,6 +1373,7 @@ impl World for BwdWorld {
                     memo,
                     attach_rete: attach,
                     ops: ops.clone(),
+                    objects: *objects,
                 };
                 for v in drop_chunks(ops) {
                     out.push(mk(alt_hash_seeds, rules, goals, &v, *max_depth, *max_solutions, *memo, *attach_rete, init, *hash_seed));
@@ -1332,19 +1413,22 @@ impl World for BwdWorld {
                     let mut alts: Vec<BRule> = Vec::new();
                     match &r.cond {
                         BCond::And(a, b) | BCond::Or(a, b) => {
-                            alts.push(BRule { cond: (**a).clone(), sets: r.sets.clone(), fails: r.fails });
-                            alts.push(BRule { cond: (**b).clone(), sets: r.sets.clone(), fails: r.fails });
+                            alts.push(BRule { cond: (**a).clone(), sets: r.sets.clone(), fails: r.fails, copies: r.copies.clone() });
+                            alts.push(BRule { cond: (**b).clone(), sets: r.sets.clone(), fails: r.fails, copies: r.copies.clone() });
                         }
                         _ => {}
                     }
                     if r.fails {
-                        alts.push(BRule { cond: r.cond.clone(), sets: r.sets.clone(), fails: false });
+                        alts.push(BRule { cond: r.cond.clone(), sets: r.sets.clone(), fails: false, copies: r.copies.clone() });
+                        if !r.copies.is_empty() {
+                            alts.push(BRule { cond: r.cond.clone(), sets: r.sets.clone(), fails: r.fails, copies: vec![] });
+                        }
                     }
                     if r.sets.len() > 1 {
                         for k in 0..r.sets.len() {
                             let mut s = r.sets.clone();
                             s.remove(k);
-                            alts.push(BRule { cond: r.cond.clone(), sets: s, fails: r.fails });
+                            alts.push(BRule { cond: r.cond.clone(), sets: s, fails: r.fails, copies: r.copies.clone() });
                         }
                     }
                     for b in alts {
